@@ -9,12 +9,25 @@ CHAIN_NOTE = ('Bounded: the exhaustive part covers the constants recorded in the
               'Trusted: TLC 1.8.0 + CommunityModules, the Go toolchain, Cosmos SDK/CometBFT/IAVL as pinned, secp256k1 unforgeability, and the harness projection '
               '(raw store iteration + dictionary; self-tested by bin/selftest). Gas exhaustion and sequence overflow are outside every config.')
 
+TECH = 'TLA+ model checking (TLC) of Panacea.tla/Props.tla + trace validation (Trace.tla) of TLC-generated behaviours executed on the real application'
+HOW = (' TLC exhausts the bounded model (all interleavings within the constants recorded in evidence) and checks the formulas on every transition; '
+       'the SAME formulas are then evaluated by TLC on the states, results and query answers observed while the real application (real signatures, ante handler, '
+       'DeliverTx/EndBlock/Commit, restart on the same DB, genesis export + InitChain) executes TLC-generated behaviours: simulated behaviours of a larger configuration, '
+       'and state-graph tours that re-create every distinct state of a small configuration and fire the whole transaction alphabet there.')
+
+
+def chain(summary, ref):
+    return dict(tech=TECH, text=summary + HOW, ref=ref)
+
+
 CLAIMED = {
-    'C01': dict(tech='TLA+ model checking (TLC) of Panacea.tla + trace validation of the real app against Props.tla',
-                text='TLC exhausts every interleaving of AOL transactions, blocks, restarts and export/import within small constants and checks the append-only/dense/acknowledged-forever '
-                     'formulas on every transition; the same formulas are then evaluated by TLC on the states observed while the real application executes TLC-generated behaviours '
-                     '(real signatures, ante handler, DeliverTx, EndBlock/Commit, restart on the same DB, genesis export + InitChain). A history quantifier needs exactly this: all short histories, every step checked.',
-                ref='DESIGN.md section 6 C01'),
+    'C01': chain('Append-only/immutable/dense/acknowledged-forever as action properties and invariants over the record store and the Record query.', 'DESIGN.md section 6 C01'),
+    'C02': chain('Write authorisation as an action property over the pre-state, the signer set of the transaction (chosen independently of the actors named in the messages, '
+                 'with/without fee payer, through authz Exec) and the post-state; rejected attempts must leave AOL state unchanged.', 'DESIGN.md section 6 C02'),
+    'C13': chain('Counters equal cardinalities (invariant on the raw store) and every pagination request shape (key/offset, limits, reverse, count_total) of Topics/Writers yields '
+                 'exactly the stored items once, evaluated on the real answers after every step.', 'DESIGN.md section 6 C13'),
+    'C15': chain('On every delivered custom-module transaction (1-2 messages, failing at any position, fee 0/1, every signer/fee-payer arrangement) balances change only by the fee '
+                 'from the stated payer to the fee collector, supply is unchanged, and a failing transaction leaves custom state unchanged.', 'DESIGN.md section 6 C15'),
 }
 
 PENDING_REASON = 'check not built yet in this round of work (planned in DESIGN.md section 11); no claim is made until its machinery exists'
